@@ -722,25 +722,27 @@ fn check_view<P: Props + ?Sized>(r: &mut Report, cx: &Cx, p: &P, view: &str) -> 
                     bad.push(format!("i64: pull {:?}, get().cast() {:?}, first enumerated {:?}", pulled, via, want.and_then(|w| w.i)));
                 }
             }
-            {
-                let pulled = p.pull::<f64, _>(key).map(f64::to_bits);
-                let via = p.get(key).and_then(|v| v.cast::<f64>()).map(f64::to_bits);
-                if pulled != via || pulled != want.and_then(|w| w.f) {
-                    bad.push(format!("f64 bits: pull {:?}, get().cast() {:?}, first enumerated {:?}", pulled, via, want.and_then(|w| w.f)));
+            if !tiny() {
+                {
+                    let pulled = p.pull::<f64, _>(key).map(f64::to_bits);
+                    let via = p.get(key).and_then(|v| v.cast::<f64>()).map(f64::to_bits);
+                    if pulled != via || pulled != want.and_then(|w| w.f) {
+                        bad.push(format!("f64 bits: pull {:?}, get().cast() {:?}, first enumerated {:?}", pulled, via, want.and_then(|w| w.f)));
+                    }
                 }
-            }
-            {
-                let pulled = p.pull::<bool, _>(key);
-                let via = p.get(key).and_then(|v| v.cast::<bool>());
-                if pulled != via || pulled != want.and_then(|w| w.b) {
-                    bad.push(format!("bool: pull {:?}, get().cast() {:?}, first enumerated {:?}", pulled, via, want.and_then(|w| w.b)));
+                {
+                    let pulled = p.pull::<bool, _>(key);
+                    let via = p.get(key).and_then(|v| v.cast::<bool>());
+                    if pulled != via || pulled != want.and_then(|w| w.b) {
+                        bad.push(format!("bool: pull {:?}, get().cast() {:?}, first enumerated {:?}", pulled, via, want.and_then(|w| w.b)));
+                    }
                 }
-            }
-            {
-                let pulled = p.pull::<String, _>(key);
-                let via = p.get(key).and_then(|v| v.cast::<String>());
-                if pulled != via || pulled != want.and_then(|w| w.s.clone()) {
-                    bad.push(format!("String: pull {:?}, get().cast() {:?}, first enumerated {:?}", pulled, via, want.and_then(|w| w.s.clone())));
+                {
+                    let pulled = p.pull::<String, _>(key);
+                    let via = p.get(key).and_then(|v| v.cast::<String>());
+                    if pulled != via || pulled != want.and_then(|w| w.s.clone()) {
+                        bad.push(format!("String: pull {:?}, get().cast() {:?}, first enumerated {:?}", pulled, via, want.and_then(|w| w.s.clone())));
+                    }
                 }
             }
             {
@@ -1721,19 +1723,19 @@ fn main() {
 
     // 1. macro call sites (fixed)
     if miri {
-        set_stride(5, seed);
+        set_stride(8, seed);
     }
     macro_sites(&mut r);
 
     // 2. static generic shapes over seeded entries
     if miri {
-        set_stride(8, seed);
+        set_stride(16, seed);
     }
     let n_static = if miri { 1 } else { args.n(1_500, 40_000) };
     par_cases(&mut r, &args, n_static, |i, r| static_case(r, seed, i, None));
 
     // 3. dynamic trees
-    let n_dyn = if miri { (12 * args.scale / 100).max(1) } else { args.n(150_000, 6_000_000) };
+    let n_dyn = if miri { (5 * args.scale / 100).max(1) } else { args.n(150_000, 6_000_000) };
     par_cases(&mut r, &args, n_dyn, |i, r| dynamic_case(r, seed, i));
 
     std::process::exit(r.finish());
